@@ -482,6 +482,21 @@ def check_case(ctx, case):
                 d = compare_q(one, q, rtol=tol)
                 if d:
                     probs.append(('violation', 'oracle-' + path, d[:4]))
+            # extra keyword arguments of derived_observable are parameters of the user function (documented: the
+            # result is func(data, **kwargs)); value AND derivative must be taken with the values handed over
+            def fkw(x, power=1.0, scale=1.0, **k):
+                return scale * x[0] ** power + x[1]
+            pw, sc_ = 3.0, 0.5
+            stepk = sc_ * a ** pw + b
+            for path, kw, tol in [('autograd-kwargs', {}, 1e-8), ('num_grad-kwargs', {'num_grad': True}, 1e-5)]:
+                try:
+                    onek = pe.derived_observable(fkw, [a, b], power=pw, scale=sc_, **kw)
+                except Exception as e:
+                    probs.append(('violation', 'path-' + path, 'exception %r' % e))
+                    continue
+                d = obs_equal(onek, stepk, rtol=tol)
+                if d:
+                    probs.append(('violation', 'path-' + path, d[:4]))
     elif kind == 'array':
         # array_mode path (pe.linalg.matmul / inv): one-shot propagation through all matrix entries
         L = leaves
